@@ -55,7 +55,7 @@ def build_fault_campaign(tier, sd):
     # two transitions in ONE micro-step (regions of a <parallel>): an error in the first one's content must not
     # touch the second one's -- a sample of the P family, faults in the transitions' blocks only
     pdescs = list(families.enum_P())
-    for desc in rnd.sample(pdescs, 16 if tier == "quick" else 160):
+    for desc in rnd.sample(pdescs, 16 if tier == "quick" else 48):
         thunks.append(("P", (lambda d=desc: families.build_P(d))))
     nvar = 0
     for name, th in thunks:
